@@ -252,6 +252,8 @@ class Session:
                 for p, q in zip(self.plist(), snap):
                     p.data.copy_(q)
             out = self.model(self.inp)
+            # (the output may alias a parameter: take the values before the parameters are put back)
+            out = [o.clone() for o in out] if isinstance(out, (tuple, list)) else out.clone()
             if keep is not None:
                 for p, q in zip(self.plist(), keep):
                     p.data.copy_(q)
